@@ -463,6 +463,14 @@ def main(ctx):
         old = P.time
         P.time = clk
         f = io.StringIO()
+        term0 = os.environ.get("TERM")
+        if desc.startswith("term-dumb:"):
+            # the terminal type of the calling process is no argument of the bar: whatever TERM says, the items come through
+            desc = desc[10:]
+            os.environ["TERM"] = "dumb"
+        elif desc.startswith("term-unset:"):
+            desc = desc[11:]
+            os.environ.pop("TERM", None)
         if desc.startswith("ascii:"):
             # a log file opened with encoding='ascii' (and a long description): whatever the bar writes must be
             # encodable there, as everything the unchanged bar writes is
@@ -511,6 +519,10 @@ def main(ctx):
             return clk.points
         finally:
             P.time = old
+            if term0 is None:
+                os.environ.pop("TERM", None)
+            else:
+                os.environ["TERM"] = term0
         if refusal_ok:
             # accepted without knowing the length: then it must at least yield the items
             pass
@@ -530,8 +542,8 @@ def main(ctx):
             if entry == "PBar" and ikind not in ("list", "gen"):
                 continue
             for n in ns:
-                for desc in ("", "d", "ascii:" + "a long description of what is being done " * 2, "ascii:d"):
-                    if desc.startswith("ascii:") and not (n == ns[-1] or n == 0):
+                for desc in ("", "d", "ascii:" + "a long description of what is being done " * 2, "ascii:d", "term-dumb:d", "term-unset:"):
+                    if desc.startswith(("ascii:", "term-")) and not (n == ns[-1] or n == 0):
                         continue
                     for totsel in ("none", "exact", "small", "large"):
                         if totsel == "exact" and n == 0 and False:
